@@ -177,7 +177,7 @@ impl Ctx<'_> {
         let va = El::A(ca.to_vec());
         let vb = El::A(cb.to_vec());
         let expected = va.eq(&vb);
-        let src = format!("a := {ea}; b := {eb}; m := match a {{ b => true, => false, }}; (a == b, b == a, a != b, b != a, m, a == a)");
+        let src = format!("a := {ea}; b := {eb}; m := match a {{ b => true, => false, }}; (a == b, b == a, a != b, b != a, m, a == a, !(a == b), !(a != b), !(!(a == b)))");
         self.rep.evaluations += 1;
         self.rep.distinct_case(&src);
         self.rep.shape("path_pairs", &format!("{pa}/{pb}"));
@@ -189,7 +189,7 @@ impl Ctx<'_> {
                 let key = format!("c19:eval:{pa}/{pb}:{}", truncate(&why, 60));
                 self.rep.violation(&key, &format!("{src}: {why}"), "c19", &src);
             }
-            Ok(v) if v.len() == 6 => {
+            Ok(v) if v.len() == 9 => {
                 let reflexive_expected = !va.has_nan();
                 let checks = [
                     ("==", v[0], expected),
@@ -198,6 +198,9 @@ impl Ctx<'_> {
                     ("!=(sym)", v[3], !expected),
                     ("match-value-arm", v[4], expected),
                     ("reflexive", v[5], reflexive_expected),
+                    ("!(==)", v[6], !expected),
+                    ("!(!=)", v[7], expected),
+                    ("!(!(==))", v[8], expected),
                 ];
                 for (op, got, want) in checks {
                     if got != want {
@@ -232,6 +235,16 @@ impl Ctx<'_> {
             ("a := (() -> int|string { return 1 })(); b := (() -> any { return 1 })(); a == b", true),
             ("a := (() -> [int|string] { return [1] })(); b := (() -> [int] { return [1] })(); a == b", true),
             ("a := (() -> [int|string] { return [] })(); b := (() -> [float] { return [] })(); a == b", true),
+            // floats one or two units in the last place apart are different values, for every spelling of the question
+            ("(0.1 + 0.2) == 0.3", false), ("0.30000000000000004 == 0.3", false), ("1.0 == 1.0000000000000002", false), ("1.0000000000000002 == 1.0", false),
+            ("f := (x: float, y: float) -> bool { return x == y }; f(0.1 + 0.2, 0.3)", false), ("f := (x: float, y: float) -> bool { return x == y }; f(1.0, 1.0000000000000002)", false),
+            ("f := (x: float, y: float) -> bool { return x == y }; f(4503599627370496.0, 4503599627370497.0)", false),
+            ("f := (x: float, y: float) -> bool { return x == y }; f(5e-324, 1e-323)", false), ("f := (x: float, y: float) -> bool { return x == y }; f(1.7976931348623157e308, 1.7976931348623155e308)", false),
+            ("f := (x: any, y: any) -> bool { return x == y }; f([0.1 + 0.2], [0.3])", false), ("f := (x: float, y: float) -> bool { return match x { y => true, => false, } }; f(0.1 + 0.2, 0.3)", false),
+            ("s := mut 0.0; i := mut 0; while *i < 10 { s += 0.1; i += 1; }; *s == 1.0", false),
+            ("f := (x: int, y: int) -> bool { return !(x != y) }; f(3, 3)", true), ("f := (x: int, y: int) -> bool { return !(x != y) }; f(3, 4)", false),
+            ("f := (x: any, y: any) -> bool { return !(x != y) }; f(\"a\", \"a\")", true), ("f := (x: any, y: any) -> bool { return !(x == y) }; f([1], [1])", false),
+            ("f := (x: int) -> bool { return !(x != 3) }; f(3)", true), ("f := (x: int) -> bool { return !(3 != x) }; f(4)", false),
             // identity of functions and cells seen from inside a function (its own name, captured names, arguments)
             ("f := (g: any) -> bool { return g == f }; f(f)", true),
             ("f := (g: any) -> bool { return g == f }; h := f; h(f)", true),
